@@ -388,7 +388,9 @@ def escaping_raises(interp, summ: Summary, _caught=()):
 
     def rec(s: Summary, chain, handlers):
         for ev in s.events:
-            if ev.kind == "raise" and not ev.caught:
+            if ev.kind == "raise" and not ev.caught and not (ev.note or "").startswith("implicit:"):
+                # implicit raisers (next() on an exhausted iterator, like [..][0] on an empty list) are the business of
+                # the guard rules, not of the explicit-raise discipline
                 names = [x for x in ev.exc if not any(interp.exc_matches(x, h) for h in handlers)]
                 if names:
                     out.append((ev, chain, tuple(names)))
@@ -579,3 +581,40 @@ def both_answers(summ: Summary) -> bool:
             else:
                 return True
     return {True, False} <= consts
+
+
+def name_origins(fn_node):
+    """name -> set of names and call origins ('call:<callee attr or name>') it may derive from through the assignments
+    of the function (flow-insensitive; tuple unpacking spreads the value to every target)."""
+    direct = {}
+    for s in ast.walk(fn_node):
+        targets, value = [], None
+        if isinstance(s, ast.Assign):
+            targets, value = s.targets, s.value
+        elif isinstance(s, (ast.AugAssign, ast.AnnAssign)) and s.value is not None:
+            targets, value = [s.target], s.value
+        elif isinstance(s, ast.NamedExpr):
+            targets, value = [s.target], s.value
+        if value is None:
+            continue
+        src = {n.id for n in ast.walk(value) if isinstance(n, ast.Name)}
+        for c in ast.walk(value):
+            if isinstance(c, ast.Call):
+                nm = c.func.attr if isinstance(c.func, ast.Attribute) else getattr(c.func, "id", None)
+                if nm:
+                    src.add("call:" + nm)
+        for t in targets:
+            for n in ast.walk(t):
+                if isinstance(n, ast.Name):
+                    direct.setdefault(n.id, set()).update(src)
+    changed = True
+    while changed:
+        changed = False
+        for k, v in direct.items():
+            new = set(v)
+            for x in list(v):
+                new |= direct.get(x, set())
+            if new != v:
+                direct[k] = new
+                changed = True
+    return direct
